@@ -363,6 +363,61 @@ def _small_histories(task):
     return part
 
 
+def _compound_spellings(part):
+    """Spellings an application may register: compounds of TWO or THREE fragments of the substitution list (legacy or
+    current form each), joined by '/' or '.', e.g. 'lbmole/1000ft3' for an application unit 'lbmol/Mcf'.  The rewrite
+    replaces every legacy fragment (reference: fragment-wise replacement of the parts), flags the spelling as legacy
+    iff some part was legacy, and is idempotent; then the same on a small database that registers the current compound:
+    every spelling of it resolves to that unit."""
+    from barril.units import ObtainQuantity, UnitDatabase
+    from barril.units import Scalar as _Scalar
+
+    frags = []
+    for legacy, current in _LEGACY_TO_CURRENT:
+        frags.append((legacy, current, True))
+        if (current, current, False) not in frags:
+            frags.append((current, current, False))
+    combos = [c for n in (2, 3) for c in itertools.product(frags, repeat=n)]
+    registered = 0
+    for combo in combos:
+        for sep in ("/", "."):
+            spelling = sep.join(f[0] for f in combo)
+            want = sep.join(f[1] for f in combo)
+            any_legacy = any(f[2] for f in combo)
+            part.count("evaluations")
+            got = FixUnitIfIsLegacy(spelling)
+            sig = "C16:compound spelling %s" % spelling
+            snip = "from barril.units.unit_database import FixUnitIfIsLegacy\nr = FixUnitIfIsLegacy(%r)\nprint(r); assert r == (%r, %r)\nassert FixUnitIfIsLegacy(r[1]) == (False, r[1])\n" % (spelling, any_legacy, want)
+            if got != (any_legacy, want):
+                part.violation(sig + ":rewrite does not replace every legacy fragment", {"rewritten": got, "expected": (any_legacy, want)}, snip)
+                continue
+            if FixUnitIfIsLegacy(got[1]) != (False, want):
+                part.violation(sig + ":rewrite is not idempotent", {"second": FixUnitIfIsLegacy(got[1])}, snip)
+                continue
+            part.add("nontrivial", spelling)
+            if len(combo) == 2 and any_legacy and sep == "/":
+                # an application database that registers the current compound: the legacy spelling is that unit
+                db = UnitDatabase()
+                db.AddUnitBase("app ratio", "app base", "app0")
+                db.AddUnit("app ratio", "app compound", want, "%f * 2.0", "%f / 2.0")
+                db.AddCategory("app ratio", "app ratio")
+                UnitDatabase.PushSingleton(db)
+                try:
+                    registered += 1
+                    def observe(u):
+                        try:
+                            return (_Scalar(3.0, u).GetUnit(), ObtainQuantity(u).GetUnit(), db.Convert("app ratio", u, "app0", 3.0), db.Convert("app ratio", "app0", u, 3.0), db.GetDefaultCategory(u), _Scalar(3.0, u, "app ratio").GetValue("app0"))
+                        except Exception as e:
+                            return repr(e)
+
+                    obs, ref = observe(spelling), observe(want)
+                    if obs != ref or not isinstance(ref, tuple) or ref[0] != want:
+                        part.violation(sig + ":an application unit %s is not reached through its legacy spelling" % want, {"observed": obs, "with_current_spelling": ref})
+                finally:
+                    UnitDatabase.PopSingleton()
+    part.count("compound_spellings_on_app_database", registered)
+
+
 def run(ctx):
     with worlds.world("posc") as db:
         units = set(db.unit_to_unit_info)
@@ -373,9 +428,11 @@ def run(ctx):
     tasks = [(pairs[i::16], ctx.thorough) for i in range(16)]
     tasks.append(("histories", 4 if ctx.thorough else 3))
     run_sharded(ctx, _task, tasks)
+    _compound_spellings(ctx.part)
     ctx.level = "exploration"
     ctx.rule = (
         "complete product: every legacy spelling derivable from the %d substitutions for the %d table units (%d spellings) x 35 entry points x 2 request orders on a cold cache%s; every current symbol through the rewrite; "
+        "every compound of 2 or 3 substitution fragments (legacy or current form, '/' or '.') through the rewrite (replaces every fragment, idempotent), the two-fragment ones also as a unit of an application database; "
         "every legacy spelling used with every non-default category of its type first (cold cache) and then category-less; every sequence of <= 2 (thorough 3) registrations/legacy queries on a fresh small database ended by a query, legacy vs current on twin databases; non-trivial = distinct legacy spellings; outcomes = (entry point, result type)" % (len(_LEGACY_TO_CURRENT), n_units, len(pairs), " x every conversion target of the type x 3 values" if ctx.thorough else "")
     )
     ctx.coverage_extra = {"legacy_spellings": len(pairs), "substitutions": len(_LEGACY_TO_CURRENT), "current_symbols": n_units, "spellings_sample": pairs[:8]}
